@@ -28,6 +28,18 @@ pub fn seed_hex(rng: &mut Rng) -> String {
 pub fn random_seed_hex(rng: &mut Rng) -> String {
     let mut s = [0u8; 32];
     rng.fill(&mut s);
+    // one seed in four has bytes a data-dependent defect could key on at its edges
+    // (the rest stays random: the leak scanners need seeds with many distinct bytes)
+    match rng.below(16) {
+        0 => s[0] = 0,
+        1 => s[31] = 0,
+        2 => s[..4].fill(0xff),
+        3 => {
+            s[0] = 0x0a;
+            s[31] = 0x22
+        }
+        _ => {}
+    }
     r::hex_lower(&s)
 }
 
